@@ -723,7 +723,7 @@ def types_oracle(ctx, prop):
     ctx.add_mc(r, "enum-type-behaviours(naming, deletion, GC, find / add: 4 edits)")
     a = [l for l in open(raw + ".a")] + [l for l in open(raw + ".n") if "nametype" in l]
     b = sorted(set(open(raw + ".b")))
-    budget = (4000, 4000) if q else (10 ** 9, 200000)
+    budget = (4000, 4000) if q else (300000, 200000)
     pick = lambda ls, n: ls if len(ls) <= n else [l for l in ls if (zlib.crc32(l.encode()) + ctx.seed) % max(1, len(ls) // n) == 0]
     hist = raw + ".txt"
     with open(hist, "w") as f:
